@@ -9,3 +9,11 @@ Theorem mask_test_exact : forall a m bits, length a = length m -> Forall small a
   cm a m bits = true <-> (forall i, i < bits -> abit a i = abit m i).
 Proof. exact check_mask_spec. Qed.
 Print Assumptions mask_test_exact.
+
+(* wherever the printer's texts are concerned, the daemon's parser and the reference (standard library) parser agree *)
+Require Import AddrV4 AddrRoundTrip.
+Require AddrRef.
+Theorem parsers_agree_on_printed_addresses : forall gs, wf gs ->
+  exists gs', pton (ntop gs) false false = Res (length (ntop gs)) None gs' /\ AddrRef.ref_pton (ntop gs) = Some gs'.
+Proof. exact pton_agrees_with_ref. Qed.
+Print Assumptions parsers_agree_on_printed_addresses.
